@@ -97,7 +97,11 @@ def run(run):
         plan = [('open', cat['open'], dict(subset_counts=(2, 3) if thorough else (2,), seeds=(rot, (rot + 2) % 5), fmax=2)),
                 ('struct', cat['struct'], dict(subset_counts=(2, 3) if thorough else (2,), seeds=(rot,), fmax=2)),
                 ('bitmap', cat['bitmap'], dict(subset_counts=(2,), seeds=((rot + 1) % 5,), fmax=2)),
-                ('plain', cat['plain'], dict(subset_counts=(3,), seeds=((rot + 3) % 5,)))]
+                ('plain', cat['plain'], dict(subset_counts=(3,), seeds=((rot + 3) % 5,))),
+                # grammar-derived templates of this seed (vf/gen.py): delayed replications in front of operator brackets and
+                # bitmaps, so that the subsets of one message differ in structure
+                ('rnd_struct', cat['rnd_struct'], dict(subset_counts=(2,), seeds=((rot + 4) % 5,), fmax=2)),
+                ('rnd_bitmap', cat['rnd_bitmap'], dict(subset_counts=(2,), seeds=(rot,), fmax=2))]
         for label, templates, kw in plan:
             res = fm94.gen_run(wd, 'MC_c06_' + label, templates, compressions=(False,), emit='EmitSolo',
                                properties=('SubsetsStartFresh',), editions=(4,) if label != 'plain' else (3,), **kw)
